@@ -48,7 +48,7 @@ P3(S, S2) == { << NameItem(n1, TRUE), SkipItem(s1), NameItem(n2, c2), SkipItem(s
 P4(S) == { << NameItem(n1, TRUE), SkipItem(s1), NameItem(n2, c2), SkipItem(0), NameItem(n3, TRUE), SkipItem(s3), NameItem(n4, c4) >> :
              n1 \in S, n2 \in S, n3 \in S, n4 \in S, c2 \in BOOLEAN, c4 \in BOOLEAN, s1 \in Skips, s3 \in {0, 3} }
 
-Plans == IF Mode = "dev" THEN P3(NamesD, {0, 1})
+Plans == IF Mode = "dev" THEN P3(NamesD, IF Scale >= 1 THEN {0, 1} ELSE {0})
          ELSE IF Scale >= 1 THEN P3(NamesT, {0, 3}) \cup P4(NamesS)
          ELSE P3(NamesQ, {0})
 
